@@ -36,7 +36,10 @@ cv_i8 gh_aw_state;               /* what is known about the awaiter of interest 
 #define SLOT_INV(s, i) ((s)._used <= 1 && (s)._kicked <= 1 && \
    ((s)._used ==> ((s)._pos <= POS && NFREE != (i))) &&                                      /* head of the free list is free */ \
    (((s)._used && (s)._awt != 0) ==> ((s)._pos == POS && !(s)._kicked && !CLOSED)) &&        /* parked only at reg._pos == _pos */ \
-   (!(s)._used ==> ((s)._pos <= rg_n && (s)._pos != (i))))                                    /* free-list link in range, no self-loop */
+   (!(s)._used ==> (s)._pos <= rg_n))                                                         /* free-list link in range      */
+/* a free slot does not link to itself (kept apart from SLOT_INV: only subscribe_lk / leave_lk touch the free list) */
+#define SLOT_NOLOOP(s, i) (!(s)._used ==> (s)._pos != (i))
+#define T_NOLOOP (T_IN ==> SLOT_NOLOOP(T, gh_RH))
 /* retention: the window still holds everything slot s needs, up to max (not an invariant for a subscriber that subscribed at an
  * explicit position older than the window: stated as "preserved", established by subscribe-recent / subscribe-by-copy) */
 #define RETAINS(spos, len, pos, maxl) ((len) >= MIN3((pos) - (spos), maxl, (pos) - 1))
@@ -47,7 +50,7 @@ cv_i8 gh_aw_state;               /* what is known about the awaiter of interest 
 #define HELD(q) (gh_lock_depth == 1 && gh_lock_held == (void *)&(q)->_mx)
 #define FREE_LOCK (gh_lock_depth == 0 && gh_lock_held == 0)
 #define STATE_OK(q) (cv_exc_pending == 0 && Q_INV && (T_IN ==> SLOT_INV(T, gh_RH)) && rg_other_idx == RG_NONE && GH_PIN)
-#define LK_PRE(q) (__CPROVER_is_fresh(q, sizeof(QT)) && STATE_OK(q) && HELD(q))
+#define LK_PRE(q) ((q) == ps_q && STATE_OK(q) && HELD(q))      /* the harness owns the queue object and sets ps_q */
 #define T_SAME  (T._pos == __CPROVER_old(rg_trk._pos) && T._sub == __CPROVER_old(rg_trk._sub) && T._awt == __CPROVER_old(rg_trk._awt) && \
                  T._used == __CPROVER_old(rg_trk._used) && T._kicked == __CPROVER_old(rg_trk._kicked))
 #define Q_SAME  (POS == __CPROVER_old(QP->_pos) && CLOSED == __CPROVER_old(QP->_closed) && dq_len == __CPROVER_old(dq_len) && \
@@ -56,14 +59,14 @@ cv_i8 gh_aw_state;               /* what is known about the awaiter of interest 
    __CPROVER_ensures(dq_len == __CPROVER_old(dq_len) && dq_front == __CPROVER_old(dq_front) && dq_trk == __CPROVER_old(dq_trk)) \
    __CPROVER_ensures(MAXL == __CPROVER_old(QP->_max_queue_len) && MINL == __CPROVER_old(QP->_min_queue_len))
 #define Q_INV_E __CPROVER_ensures(Q_CFG) __CPROVER_ensures(Q_STREAM(0)) __CPROVER_ensures(Q_MINMAX) __CPROVER_ensures(Q_REGS)
-#define MODEL_ASSIGNS ps_q, DQ_MODEL_ASSIGNS, RG_MODEL_ASSIGNS, WB_MODEL_ASSIGNS, RES_MODEL_ASSIGNS, gh_allocs
+#define MODEL_ASSIGNS DQ_MODEL_ASSIGNS, RG_MODEL_ASSIGNS, WB_MODEL_ASSIGNS, RES_MODEL_ASSIGNS, gh_allocs
 
 /* instances of the invariant for "every other slot" - assumed when an untracked slot is referenced (ghost-index idiom):
  * its own slot invariant; no free slot links to a used slot / the free-list head is free (relative to the tracked slot);
  * live subscribers are distinct objects; an awaiter is registered at most once. */
 void c16_reg_other(cv_i64 i) {
   QT *this_ = ps_q;
-  __CPROVER_assume(SLOT_INV(rg_other, i));
+  __CPROVER_assume(SLOT_INV(rg_other, i) && SLOT_NOLOOP(rg_other, i));
   __CPROVER_assume((T_IN && T._used && !rg_other._used) ==> rg_other._pos != gh_RH);
   __CPROVER_assume((T_IN && T._used && rg_other._used) ==> rg_other._sub != T._sub);
   __CPROVER_assume((gh_aw_state != 2 && rg_other._used) ==> rg_other._awt != gh_AW);
@@ -81,13 +84,13 @@ void _ZSt20__throw_system_errori(cv_i32 e) { __CPROVER_assert(0, "std::system_er
   __CPROVER_ensures(__CPROVER_return_value == gh_RH ==> !(gh_RH < __CPROVER_old(rg_n) && __CPROVER_old(rg_trk._used)))  /* never a slot that is in use */ \
   __CPROVER_ensures(__CPROVER_return_value == gh_RH ==> (T._used == 1 && T._pos == (newpos) && T._sub == sub && T._awt == 0 && T._kicked == 0)) \
   __CPROVER_ensures((__CPROVER_return_value != gh_RH && gh_RH < __CPROVER_old(rg_n)) ==> T_SAME)                   /* the others are untouched */ \
-  __CPROVER_ensures(T_IN ==> SLOT_INV(T, gh_RH)) \
+  __CPROVER_ensures(T_IN ==> SLOT_INV(T, gh_RH)) __CPROVER_ensures(T_NOLOOP) \
   __CPROVER_ensures((__CPROVER_return_value != gh_RH && T_IN && T._used && rg_other_idx == __CPROVER_return_value) ==> (rg_other._used && rg_other._sub != T._sub))
 #ifdef CV_HAS_q_subscribe_lk_pos
 cv_i64 q_subscribe_lk_pos(QT *this_, SUBT *sub, cv_i64 pos)
 __CPROVER_requires(LK_PRE(this_) && pos <= POS - 1)
-__CPROVER_requires((T_IN && T._used) ==> T._sub != sub)
-__CPROVER_assigns(ps_q, RG_MODEL_ASSIGNS, gh_allocs, this_->_next_free)
+__CPROVER_requires(T_NOLOOP && ((T_IN && T._used) ==> T._sub != sub))
+__CPROVER_assigns(RG_MODEL_ASSIGNS, gh_allocs, this_->_next_free)
 SUBSCRIBE_POST(pos)
 ;
 #endif
@@ -96,8 +99,8 @@ SUBSCRIBE_POST(pos)
 #ifdef CV_HAS_q_subscribe_lk_recent
 cv_i64 q_subscribe_lk_recent(QT *this_, SUBT *sub)
 __CPROVER_requires(LK_PRE(this_))
-__CPROVER_requires((T_IN && T._used) ==> T._sub != sub)
-__CPROVER_assigns(ps_q, RG_MODEL_ASSIGNS, gh_allocs, this_->_next_free)
+__CPROVER_requires(T_NOLOOP && ((T_IN && T._used) ==> T._sub != sub))
+__CPROVER_assigns(RG_MODEL_ASSIGNS, gh_allocs, this_->_next_free)
 SUBSCRIBE_POST(__CPROVER_old(QP->_pos) - 1)
 __CPROVER_ensures(__CPROVER_return_value == gh_RH ==> T_RET)
 ;
@@ -107,9 +110,9 @@ __CPROVER_ensures(__CPROVER_return_value == gh_RH ==> T_RET)
 cv_i64 gh_orig_pos;              /* logical variable: position of the original at entry (conditional entry value) */
 cv_i64 q_subscribe_lk_copy(QT *this_, cv_i64 h, SUBT *sub)
 __CPROVER_requires(LK_PRE(this_) && h < rg_n && gh_live_h == h)
-__CPROVER_requires((T_IN && T._used) ==> T._sub != sub)
+__CPROVER_requires(T_NOLOOP && ((T_IN && T._used) ==> T._sub != sub))
 __CPROVER_requires(h == gh_RH ==> (T._used && gh_orig_pos == T._pos))
-__CPROVER_assigns(ps_q, RG_MODEL_ASSIGNS, gh_allocs, this_->_next_free)
+__CPROVER_assigns(RG_MODEL_ASSIGNS, gh_allocs, this_->_next_free)
 __CPROVER_ensures(cv_exc_pending == 0) Q_SAME_E Q_INV_E __CPROVER_ensures(rg_n >= __CPROVER_old(rg_n) && rg_n <= __CPROVER_old(rg_n) + 1)
 __CPROVER_ensures(__CPROVER_return_value < rg_n && __CPROVER_return_value != h)
 __CPROVER_ensures(h == gh_RH ==> (T_SAME && __CPROVER_return_value != gh_RH))                                      /* original untouched */
@@ -117,7 +120,7 @@ __CPROVER_ensures((h == gh_RH && rg_other_idx == __CPROVER_return_value) ==> (rg
 __CPROVER_ensures(__CPROVER_return_value == gh_RH ==> !(gh_RH < __CPROVER_old(rg_n) && __CPROVER_old(rg_trk._used)))
 __CPROVER_ensures(__CPROVER_return_value == gh_RH ==> (T._used == 1 && T._sub == sub && T._awt == 0 && T._kicked == 0 && T._pos <= POS))
 __CPROVER_ensures((__CPROVER_return_value != gh_RH && gh_RH < __CPROVER_old(rg_n)) ==> T_SAME)
-__CPROVER_ensures(T_IN ==> SLOT_INV(T, gh_RH))
+__CPROVER_ensures(T_IN ==> SLOT_INV(T, gh_RH)) __CPROVER_ensures(T_NOLOOP)
 ;
 #endif
 
@@ -125,12 +128,12 @@ __CPROVER_ensures(T_IN ==> SLOT_INV(T, gh_RH))
 #ifdef CV_HAS_q_leave_lk
 void q_leave_lk(QT *this_, cv_i64 h)
 __CPROVER_requires(LK_PRE(this_) && h < rg_n)
-__CPROVER_requires(h == gh_RH ==> T._used)
-__CPROVER_assigns(ps_q, RG_MODEL_ASSIGNS, this_->_next_free)
+__CPROVER_requires(T_NOLOOP && (h == gh_RH ==> T._used))
+__CPROVER_assigns(RG_MODEL_ASSIGNS, this_->_next_free)
 __CPROVER_ensures(cv_exc_pending == 0) Q_SAME_E Q_INV_E __CPROVER_ensures(rg_n == __CPROVER_old(rg_n) && NFREE == h)
 __CPROVER_ensures(h == gh_RH ==> (T._used == 0 && T._pos == __CPROVER_old(QP->_next_free)))
 __CPROVER_ensures(h != gh_RH ==> T_SAME)
-__CPROVER_ensures(T_IN ==> SLOT_INV(T, gh_RH))
+__CPROVER_ensures(T_IN ==> SLOT_INV(T, gh_RH)) __CPROVER_ensures(T_NOLOOP)
 __CPROVER_ensures((h != gh_RH && T_IN && T._used) ==> (rg_other_idx == h && !rg_other._used && rg_other._pos != gh_RH && rg_other._pos <= rg_n))   /* the freed slot does not link to a used one */
 ;
 #endif
@@ -143,7 +146,7 @@ __CPROVER_ensures((h != gh_RH && T_IN && T._used) ==> (rg_other_idx == h && !rg_
 cv_i1 q_advance_lk(QT *this_, cv_i64 h, cv_i32 t)
 __CPROVER_requires(LK_PRE(this_) && h < rg_n)
 __CPROVER_requires(h == gh_RH ==> SUBSCRIBER_ACTIVE)
-__CPROVER_assigns(ps_q, RG_MODEL_ASSIGNS, dq_slot)
+__CPROVER_assigns(RG_MODEL_ASSIGNS, dq_slot)
 __CPROVER_ensures(cv_exc_pending == 0 && __CPROVER_return_value <= 1) Q_SAME_E Q_INV_E __CPROVER_ensures(rg_n == __CPROVER_old(rg_n) && NFREE == __CPROVER_old(QP->_next_free))
 __CPROVER_ensures(h != gh_RH ==> T_SAME)                                                                        /* subscribers are independent */
 __CPROVER_ensures(T._sub == __CPROVER_old(rg_trk._sub) && T._awt == __CPROVER_old(rg_trk._awt) && T._used == __CPROVER_old(rg_trk._used) && T._kicked == __CPROVER_old(rg_trk._kicked))
@@ -166,7 +169,7 @@ cv_i1 q_advance_suspend_lk(QT *this_, cv_i64 h, AWT *awt)
 __CPROVER_requires(LK_PRE(this_) && h < rg_n && awt != 0)
 __CPROVER_requires(h == gh_RH ==> SUBSCRIBER_ACTIVE)
 __CPROVER_requires(awt == gh_AW ==> gh_aw_state == 0)                                                           /* an awaiter is registered at most once */
-__CPROVER_assigns(ps_q, RG_MODEL_ASSIGNS)
+__CPROVER_assigns(RG_MODEL_ASSIGNS)
 __CPROVER_ensures(cv_exc_pending == 0 && __CPROVER_return_value <= 1) Q_SAME_E Q_INV_E __CPROVER_ensures(rg_n == __CPROVER_old(rg_n) && NFREE == __CPROVER_old(QP->_next_free))
 __CPROVER_ensures(h != gh_RH ==> T_SAME)
 __CPROVER_ensures(T._sub == __CPROVER_old(rg_trk._sub) && T._used == __CPROVER_old(rg_trk._used) && T._kicked == __CPROVER_old(rg_trk._kicked))
@@ -188,7 +191,7 @@ __CPROVER_ensures(T_IN ==> SLOT_INV(T, gh_RH))
 cv_i64 q_get_value_lk(QT *this_, cv_i64 h, cv_i32 t)
 __CPROVER_requires(LK_PRE(this_) && h < rg_n && h == gh_RH)      /* the tracked slot is the caller's (nothing is written: the assigns clause is the frame for all others) */
 __CPROVER_requires(T._used && T._pos >= 1 && T._pos <= POS)                                                   /* after an advance */
-__CPROVER_assigns(ps_q, rg_other, rg_other_idx, dq_slot)
+__CPROVER_assigns(rg_other, rg_other_idx, dq_slot)
 __CPROVER_ensures(cv_exc_pending == 0) Q_SAME_E Q_INV_E __CPROVER_ensures(rg_n == __CPROVER_old(rg_n) && T_SAME && (((__CPROVER_return_value) >> 32) & 0xff) <= 1)
 /* all_values: a value is THE value published at the registered position */
 __CPROVER_ensures((h == gh_RH && ALL_VALUES(t) && OPT_ENG(__CPROVER_return_value)) ==> (!T._kicked && T._pos < POS && (T._pos == gh_P ==> OPT_VAL(__CPROVER_return_value) == gh_sval)))
@@ -200,5 +203,146 @@ __CPROVER_ensures((h == gh_RH && ALL_VALUES(t) && !OPT_ENG(__CPROVER_return_valu
 __CPROVER_ensures((h == gh_RH && !ALL_VALUES(t)) ==> (OPT_ENG(__CPROVER_return_value) == !(T._kicked || T._pos == POS)))
 __CPROVER_ensures((h == gh_RH && t == 1 && OPT_ENG(__CPROVER_return_value) && gh_P == MAX2(T._pos, POS - dq_len)) ==> OPT_VAL(__CPROVER_return_value) == gh_sval)   /* skip_if_behind: own position or the oldest retained */
 __CPROVER_ensures((h == gh_RH && t == 2 && OPT_ENG(__CPROVER_return_value) && gh_P == POS - 1) ==> OPT_VAL(__CPROVER_return_value) == gh_sval)                       /* skip_to_recent: always the newest */
+;
+#endif
+
+/* =========================================================================================================================
+ * Thread-modular part (DESIGN 3.5).  Hooks of lib/model_mutex.c:
+ *   c16_on_unlock - every release of the queue mutex: the queue invariant is an OBLIGATION (plus, in the push_lk unit, what push_lk
+ *                   must have achieved inside its critical section);
+ *   c16_on_lock   - every acquisition: RELY step - other threads have executed any number of complete critical sections. */
+#define LOCK_ASSIGNS gh_lock_held, gh_lock_depth, gh_n_lock, gh_n_unlock
+cv_i64 gh_pos0, gh_len0, gh_cnt;      /* push_lk: logical variables for the entry values of _pos, |_q| and the argument count   */
+cv_i8 gh_ret0;                        /* push_lk: retention held for the tracked slot before the items were pushed              */
+cv_i32 gh_n_unlock_chk;               /* number of releases at which the obligations were checked                               */
+#define C16_ASSERT_INV(why) \
+  __CPROVER_assert(Q_CFG, why ": configuration min >= 1, max >= min untouched, closed is a bool"); \
+  __CPROVER_assert(Q_STREAM(0), why ": _pos >= 1, |_q| <= _pos-1, _q[G] == gh_stream[_pos-1-G]"); \
+  __CPROVER_assert(Q_MINMAX, why ": min(min_len, published) <= |_q| <= max_len"); \
+  __CPROVER_assert(Q_REGS, why ": free-list head in range"); \
+  __CPROVER_assert(T_IN ==> SLOT_INV(T, gh_RH), why ": registration invariant (a parked awaiter only at reg._pos == _pos, not kicked, not closed)")
+void c16_on_unlock(void *m) {
+  QT *this_ = ps_q;
+  __CPROVER_assert(m == (void *)&this_->_mx, "the mutex released is the queue mutex");
+  gh_n_unlock_chk++;
+  C16_ASSERT_INV("queue invariant when the mutex is released");
+#ifdef C16_UNLOCK_PUSH
+  /* what push_lk(lk, count) has to achieve before it lets go of the lock (property statement, clause by clause) */
+  __CPROVER_assert(POS == gh_pos0 + gh_cnt, "push_lk: stream position advanced by exactly the number of pushed items");
+  __CPROVER_assert((T_IN && T._used) ==> dq_len >= MIN3(POS - T._pos, MAXL, gh_len0), "push_lk: retains every position a registered subscriber still needs, up to max");
+  __CPROVER_assert((T_IN && T._used && gh_ret0) ==> T_RET, "push_lk: a subscriber the window was sufficient for stays served until it falls more than max behind");
+  __CPROVER_assert((T_IN && T._used) ==> T._awt == 0, "push_lk: no awaiter stays parked across a publish/close");
+  __CPROVER_assert(gh_aw_state == 1 ==> wb_cnt == 1, "push_lk: the parked awaiter was collected for wake-up exactly once");
+  __CPROVER_assert(gh_aw_state == 0 ==> wb_cnt == 0, "push_lk: an awaiter that is not parked is not collected");
+#endif
+}
+/* RELY: what the other threads may have done while this thread did not hold the mutex.  Each of their critical sections keeps the
+ * queue invariant (the obligation above, for every function); towards MY registration (the tracked slot, while it is in use) they
+ * guarantee: _pos/_sub/_used untouched, _awt only cleared (wake-up: publish, close, kick), _kicked only set, the window keeps
+ * serving it (retention).  The stream only grows, _closed only becomes true, trimmed items never come back. */
+void c16_rely(QT *this_) {
+  cv_i64 k = nondet_size_t(), nl = nondet_size_t(), nn = nondet_size_t(), nf = nondet_size_t();
+  cv_i8 cl = (cv_i8)nondet_unsigned(), ki = (cv_i8)nondet_unsigned();
+  cv_i64 low0 = dq_front + 1 - dq_len;                          /* ids below are gone for good                     */
+  cv_i1 mine = (T_IN && T._used) ? 1 : 0, ret0 = (mine && T_RET) ? 1 : 0;
+  __CPROVER_assume(k < PS_BIG && POS + k < PS_BIG);
+  __CPROVER_assume(cl <= 1 && cl >= CLOSED && ki <= 1);
+  cv_i1 event = (k > 0 || cl != CLOSED) ? 1 : 0;
+  POS += k; dq_front += k; CLOSED = cl;
+  dq_len = nl; __CPROVER_assume(dq_len <= POS - 1 && Q_MINMAX && dq_front + 1 - dq_len >= low0);
+  { cv_i32 v = (cv_i32)nondet_unsigned(); if (DQ_INWIN(gh_P)) v = gh_sval; dq_trk = v; }   /* == gh_stream[gh_P] whenever retained */
+  __CPROVER_assume(nn >= rg_n && nn <= PS_BIG && nf <= nn);
+  rg_n = nn; NFREE = nf;
+  if (mine) {
+    if (ki >= T._kicked && ki != T._kicked) { T._kicked = ki; event = 1; }
+    if (event) T._awt = 0;                                      /* whoever publishes / closes / kicks wakes the parked awaiter */
+    __CPROVER_assume(NFREE != gh_RH);
+    __CPROVER_assume(ret0 ==> T_RET);
+  } else {                                                      /* a slot nobody owns may be handed to a new subscriber */
+    SUBREG nd; __CPROVER_assume(nd._used <= 1 && nd._kicked <= 1); T = nd;
+    __CPROVER_assume(T_IN ==> (SLOT_INV(T, gh_RH) && SLOT_NOLOOP(T, gh_RH)));
+    __CPROVER_assume(gh_aw_state == 2 || !(T_IN && T._used && T._awt == gh_AW));
+  }
+  rg_other_idx = RG_NONE;
+  WB_LEN(&this_->_wakeup_buffer) = nondet_size_t(); wb_cnt = 2;   /* their push_lk used the buffer */
+}
+cv_i8 gh_rely_on;                     /* units pin this: 1 = apply the rely at every acquisition */
+void c16_on_lock(void *m) { QT *this_ = ps_q; __CPROVER_assert(m == (void *)&this_->_mx, "the mutex acquired is the queue mutex"); if (gh_rely_on) c16_rely(this_); }
+
+/* =========================================================================================================================
+ * push_lk(lk, count) - called with the lock held after `count` items were pushed to the front of _q (count == 0: close()).
+ * Two critical sections: [advance _pos, collect parked awaiters, trim the window] unlock [resume] lock [give the buffer back]. */
+#define SLOT_INV_PUSHPRE(s, i) ((s)._used <= 1 && (s)._kicked <= 1 && ((s)._used ==> ((s)._pos <= POS && NFREE != (i))) && \
+   (((s)._used && (s)._awt != 0) ==> ((s)._pos == POS && !(s)._kicked)) && (!(s)._used ==> (s)._pos <= rg_n))     /* close() has already set _closed */
+#ifdef CV_HAS_std_min_il
+/* std::min(std::initializer_list<size_t>) - assumed contract (the list has the three elements written in push_lk) */
+cv_i64 std_min_il(cv_i64 *a, cv_i64 n) {
+  __CPROVER_assert(n >= 1 && n <= 3, "model bound: std::min over an initializer_list of 1..3 elements");
+  cv_i64 m = a[0]; if (n > 1 && a[1] < m) m = a[1]; if (n > 2 && a[2] < m) m = a[2]; return m; }
+#endif
+#ifdef CV_HAS_q_push_lk
+#define PUSH_I0      PS_DEC(__begin0__mem._M_current)
+#define CV_LOOP_q_push_lk_0 \
+  __CPROVER_assigns(CV_LOOP_LOCALS_q_push_lk_0, rg_trk, rg_other, rg_other_idx, wb_cnt, wb_idx, gh_allocs, this1->_wakeup_buffer) \
+  __CPROVER_loop_invariant(PUSH_I0 <= rg_n && __begin0__mem._M_current == PS_ENC(SUBREG, PUSH_I0) && __end0__mem._M_current == PS_ENC(SUBREG, rg_n) && (rg_other_idx == RG_NONE || rg_other_idx < PUSH_I0)) \
+  __CPROVER_loop_invariant(need_len__mem >= this1->_min_queue_len && WB_LEN(&this1->_wakeup_buffer) <= PS_BIG) \
+  __CPROVER_loop_invariant(T._pos == __CPROVER_loop_entry(rg_trk._pos) && T._sub == __CPROVER_loop_entry(rg_trk._sub) && T._used == __CPROVER_loop_entry(rg_trk._used) && T._kicked == __CPROVER_loop_entry(rg_trk._kicked)) \
+  __CPROVER_loop_invariant((T_IN && T._used && gh_RH < PUSH_I0) ==> (T._awt == 0 && need_len__mem >= this1->_pos - T._pos)) \
+  __CPROVER_loop_invariant(gh_RH >= PUSH_I0 ==> T._awt == __CPROVER_loop_entry(rg_trk._awt)) \
+  __CPROVER_loop_invariant(!(T_IN && T._used) ==> T._awt == __CPROVER_loop_entry(rg_trk._awt)) \
+  __CPROVER_loop_invariant(gh_aw_state == 1 ==> (wb_cnt == (gh_RH < PUSH_I0 ? 1 : 0) && (gh_RH < PUSH_I0 ==> wb_idx < WB_LEN(&this1->_wakeup_buffer)))) \
+  __CPROVER_loop_invariant(gh_aw_state == 0 ==> wb_cnt == 0)
+#define PUSH_I1      PS_DEC(__begin3__mem._M_current)
+#define CV_LOOP_q_push_lk_1 \
+  __CPROVER_assigns(CV_LOOP_LOCALS_q_push_lk_1, gh_n_res, gh_n_res_AW, gh_n_sp_dtor, wb_slot) \
+  __CPROVER_loop_invariant(PUSH_I1 <= WB_LEN(&wk__mem) && __begin3__mem._M_current == PS_ENC(AWT *, PUSH_I1) && __end3__mem._M_current == PS_ENC(AWT *, WB_LEN(&wk__mem)) && cv_exc_pending == 0) \
+  __CPROVER_loop_invariant(gh_n_res == __CPROVER_loop_entry(gh_n_res) + PUSH_I1 && gh_n_sp_dtor == __CPROVER_loop_entry(gh_n_sp_dtor) + PUSH_I1) \
+  __CPROVER_loop_invariant(gh_aw_state == 1 ==> gh_n_res_AW == __CPROVER_loop_entry(gh_n_res_AW) + (PUSH_I1 > wb_idx ? 1 : 0)) \
+  __CPROVER_loop_invariant(gh_aw_state == 0 ==> gh_n_res_AW == __CPROVER_loop_entry(gh_n_res_AW))
+void q_push_lk(QT *this_, ULK *lk, cv_i64 count)
+__CPROVER_requires(cv_exc_pending == 0 && this_ == ps_q && lk->_M_device == &this_->_mx && lk->_M_owns == 1 && HELD(this_))
+__CPROVER_requires(count < PS_BIG && Q_CFG && Q_STREAM(count) && POS + count < PS_BIG && dq_len >= MIN2(MINL, POS - 1) + count && dq_len <= MAXL + count && Q_REGS)
+__CPROVER_requires((T_IN ==> SLOT_INV_PUSHPRE(T, gh_RH)) && rg_other_idx == RG_NONE && GH_PIN)
+__CPROVER_requires(gh_pos0 == POS && gh_len0 == dq_len && gh_cnt == count && gh_ret0 <= 1 && (gh_ret0 ==> RETAINS(T._pos, dq_len - count, POS, MAXL)))
+__CPROVER_requires(gh_rely_on == 1 && gh_n_unlock_chk == 0 && gh_n_res < PS_BIG && gh_n_sp_dtor < PS_BIG && gh_n_res_AW < PS_BIG)
+__CPROVER_assigns(MODEL_ASSIGNS, LOCK_ASSIGNS, gh_n_unlock_chk, __CPROVER_object_whole(this_), __CPROVER_object_whole(lk))
+__CPROVER_ensures(cv_exc_pending == 0 && HELD(this_) && lk->_M_owns == 1 && lk->_M_device == &this_->_mx)        /* returns with the lock held again */
+__CPROVER_ensures(gh_n_unlock_chk == 1)                                                                           /* exactly one release: the obligations listed in c16_on_unlock were checked there */
+__CPROVER_ensures(gh_aw_state == 1 ==> gh_n_res_AW == __CPROVER_old(gh_n_res_AW) + 1)                             /* every parked awaiter is resumed exactly once (outside the lock: obligation in the resume model) */
+__CPROVER_ensures(gh_aw_state == 0 ==> gh_n_res_AW == __CPROVER_old(gh_n_res_AW))                                 /* nobody else is */
+__CPROVER_ensures(gh_n_res - __CPROVER_old(gh_n_res) == gh_n_sp_dtor - __CPROVER_old(gh_n_sp_dtor))               /* every returned suspend point is run (destroyed) */
+;
+#endif
+
+/* =========================================================================================================================
+ * kick_lk(sub, lk): the subscriber identified by `sub` is marked kicked, its parked awaiter (if any) is resumed after the lock
+ * was released; nobody else is affected.  std::find_if = assumed contract, evaluated with the REAL translated lambda. */
+#ifdef CV_HAS_kick_find_if
+cv_i64 gh_find_k;
+SUBREG *kick_find_if(SUBREG *first, SUBREG *last, SUBT **clos_sub) {
+  struct { SUBT **sub; } clos = { clos_sub };
+  cv_i64 b = PS_DEC(first), e = PS_DEC(last), k = nondet_size_t();
+  __CPROVER_assert(b <= e && e <= rg_n, "std::find_if: [first,last) is a valid range of the registration vector");
+  __CPROVER_assert(gh_lock_depth > 0, "registrations: find_if: queue mutex held (lock discipline)");
+  __CPROVER_assume(b <= k && k <= e);
+  if (k < e) { SUBREG *s = ps_reg_ref(k); __CPROVER_assume(kick_pred((void *)&clos, s) != 0); }          /* the result satisfies the predicate */
+  if (b <= gh_RH && gh_RH < k) __CPROVER_assume(kick_pred((void *)&clos, &rg_trk) == 0);                 /* and nothing before it does          */
+  gh_find_k = k; return PS_ENC(SUBREG, k); }
+#endif
+#ifdef CV_HAS_q_kick_lk
+#define KICK_MATCH (gh_RH < rg_n && __CPROVER_old(rg_trk._used) && __CPROVER_old(rg_trk._sub) == sub)
+void q_kick_lk(QT *this_, SUBT *sub, ULK *lk)
+__CPROVER_requires(LK_PRE(this_) && lk->_M_device == &this_->_mx && lk->_M_owns == 1)
+__CPROVER_requires(gh_n_unlock_chk == 0 && gh_n_res < PS_BIG && gh_n_sp_dtor < PS_BIG && gh_n_res_AW < PS_BIG)
+__CPROVER_assigns(MODEL_ASSIGNS, LOCK_ASSIGNS, gh_n_unlock_chk, gh_find_k, __CPROVER_object_whole(lk))
+__CPROVER_ensures(cv_exc_pending == 0 && FREE_LOCK && lk->_M_owns == 0 && gh_n_unlock_chk == 1) Q_SAME_E Q_INV_E
+__CPROVER_ensures(rg_n == __CPROVER_old(rg_n) && NFREE == __CPROVER_old(QP->_next_free))
+__CPROVER_ensures(KICK_MATCH ==> (T._kicked == 1 && T._awt == 0 && T._used == 1 && T._pos == __CPROVER_old(rg_trk._pos) && T._sub == sub))    /* kicked, un-parked, position kept */
+__CPROVER_ensures((!KICK_MATCH && T_IN) ==> T_SAME)                                                                   /* nobody else is affected */
+__CPROVER_ensures((gh_aw_state == 1 && KICK_MATCH) ==> gh_n_res_AW == __CPROVER_old(gh_n_res_AW) + 1)                  /* its parked awaiter is woken exactly once */
+__CPROVER_ensures((gh_aw_state == 1 && !KICK_MATCH) ==> gh_n_res_AW == __CPROVER_old(gh_n_res_AW))                    /* other subscribers' awaiters are not */
+__CPROVER_ensures(gh_aw_state == 0 ==> gh_n_res_AW == __CPROVER_old(gh_n_res_AW))
+__CPROVER_ensures(gh_n_res <= __CPROVER_old(gh_n_res) + 1 && gh_n_res - __CPROVER_old(gh_n_res) == gh_n_sp_dtor - __CPROVER_old(gh_n_sp_dtor))
+__CPROVER_ensures(T_IN ==> SLOT_INV(T, gh_RH))
 ;
 #endif
